@@ -105,8 +105,8 @@ def _truth_operands(n):
         out.append(n.operand)
     if isinstance(n, ast.BoolOp):
         out += n.values[:-1] if isinstance(n.op, ast.Or) else n.values[:-1]
-    if isinstance(n, ast.Assert):
-        pass
+    if isinstance(n, ast.comprehension):
+        out += list(n.ifs)          # [x for x in xs if x.id]: the filter is a truth test like any other
     flat = []
     for e in out:
         # a test that is itself a BoolOp / not is covered when those nodes are visited
@@ -196,6 +196,48 @@ def mutdefault(prog):
         if not muts:
             continue
         cfg = cfg_of(f)
+        # plain aliases of the parameter (`ids = reached_steps`, bound once): changing the alias changes the default
+        alias = {}
+        for n in own_nodes(f.node):
+            if isinstance(n, ast.Assign) and len(n.targets) == 1 and isinstance(n.targets[0], ast.Name) \
+                    and isinstance(n.value, ast.Name) and n.value.id in muts:
+                nm = n.targets[0].id
+                aug_t = {id(x.target) for x in own_nodes(f.node) if isinstance(x, ast.AugAssign)}
+                stores_ = sum(1 for x in own_nodes(f.node) if isinstance(x, ast.Name) and x.id == nm
+                              and isinstance(x.ctx, ast.Store) and id(x) not in aug_t)
+                node = cfg.node_of(n)
+                defs = cfg.reaching(node, n.value.id) if node is not None else []
+                if stores_ == 1 and nm not in muts and any(d.kind == 'entry' for d in defs):
+                    alias[nm] = n.value.id
+        for n in own_nodes(f.node):
+            a_ = None
+            if isinstance(n, ast.Call) and isinstance(n.func, ast.Attribute) and isinstance(n.func.value, ast.Name) \
+                    and n.func.value.id in alias and n.func.attr in (ADDERS | REMOVERS | REORDER | {'setdefault'}):
+                a_ = n.func.value.id
+            if isinstance(n, ast.AugAssign) and isinstance(n.target, ast.Name) and n.target.id in alias:
+                a_ = n.target.id
+            if isinstance(n, (ast.Assign, ast.Delete)):
+                for t in n.targets:
+                    if isinstance(t, ast.Subscript) and isinstance(t.value, ast.Name) and t.value.id in alias:
+                        a_ = t.value.id
+            if a_ is not None:
+                out.append((f, n, alias[a_]))
+        # the default object itself is put into a longer-lived object (a field, a constructor argument): whoever fills
+        # that field later fills the one shared default
+        for n in own_nodes(f.node):
+            esc = None
+            if isinstance(n, ast.Assign) and isinstance(n.value, ast.Name) and n.value.id in muts \
+                    and any(isinstance(t, ast.Attribute) for t in n.targets):
+                esc = n.value.id
+            if isinstance(n, ast.Call) and isinstance(n.func, ast.Name) and n.func.id in prog.classes:
+                for a in list(n.args) + [k.value for k in n.keywords]:
+                    if isinstance(a, ast.Name) and a.id in muts:
+                        esc = a.id
+            if esc is not None:
+                node = cfg.owner(n) or cfg.node_of(n)
+                defs = cfg.reaching(node, esc) if node is not None else []
+                if any(d.kind == 'entry' for d in defs):
+                    out.append((f, n, esc))
         for n in own_nodes(f.node):
             tgt = None
             if isinstance(n, ast.Call) and isinstance(n.func, ast.Attribute) and isinstance(n.func.value, ast.Name) \
@@ -765,6 +807,98 @@ def misc_bugclasses(prog, cfg_of_):
                                     f"{n.value.id} the very same object ({base.id} is bound once, no copy in between): "
                                     f"the structure now contains itself (earlier content is overwritten, serialising it "
                                     f"never ends)"))
+    # ALIASINIT: `a = b = []` binds ONE fresh container to several places: what is appended through one shows in all
+    for f in prog.all_funcs():
+        if f.module.generated:
+            continue
+        for n in own_nodes(f.node):
+            if isinstance(n, ast.Assign) and len(n.targets) >= 2 and (
+                    isinstance(n.value, (ast.List, ast.Dict, ast.Set, ast.ListComp, ast.DictComp, ast.SetComp)) or
+                    (isinstance(n.value, ast.Call) and isinstance(n.value.func, ast.Name)
+                     and n.value.func.id in ('list', 'dict', 'set', 'defaultdict', 'deque'))):
+                tg = [t for t in n.targets if isinstance(t, (ast.Attribute, ast.Name, ast.Subscript))]
+                if len(tg) >= 2:
+                    out.append((f, n, 'ALIASINIT',
+                                f"'{stmt_text(n, 70)}' stores ONE new container under {len(tg)} names: "
+                                f"{', '.join(stmt_text(t) for t in tg)} are the same object from here on, whatever is "
+                                f"added to one of them appears in the others"))
+    # SHALLOWDEFAULT: a mutable default with mutable parts is copied one level deep (`dict(default)`, `.copy()`) and
+    # the copy is handed out: the inner containers are still the default's own, shared by every call
+    for f in prog.all_funcs():
+        if f.module.generated:
+            continue
+        for p_, d in f.param_default.items():
+            if not isinstance(d, (ast.Dict, ast.List)):
+                continue
+            inner = [x for x in ast.walk(d) if x is not d and isinstance(x, (ast.List, ast.Dict, ast.Set))]
+            if not inner:
+                continue
+            for n in own_nodes(f.node):
+                copy_of = None
+                if isinstance(n, ast.Call) and isinstance(n.func, ast.Name) and n.func.id in ('dict', 'list') \
+                        and len(n.args) == 1 and isinstance(n.args[0], ast.Name) and n.args[0].id == p_:
+                    copy_of = n
+                elif isinstance(n, ast.Call) and isinstance(n.func, ast.Attribute) and n.func.attr == 'copy' and not n.args \
+                        and isinstance(n.func.value, ast.Name) and n.func.value.id == p_:
+                    copy_of = n
+                elif isinstance(n, ast.Dict) and any(k is None and isinstance(v, ast.Name) and v.id == p_
+                                                      for k, v in zip(n.keys, n.values)):
+                    copy_of = n
+                if copy_of is not None:
+                    out.append((f, copy_of, 'SHALLOWDEFAULT',
+                                f"'{stmt_text(copy_of, 50)}' copies the default of '{p_}' one level deep; its "
+                                f"'{stmt_text(inner[0], 30)}' is still the single object created when the function was "
+                                f"defined: every caller that fills the copy fills the same inner container, the content "
+                                f"of one call shows up in all later ones"))
+    # NAMESPLIT: a full name is '<asset name>:<step name>' and asset names themselves contain ':' (Model.add_asset
+    # renames duplicates to 'name:id', unnamed assets are 'Type:id'): the asset part is everything before the LAST
+    # colon.  `full_name.split(':')[0]` / `.partition(':')[0]` cut at the first one.
+    for f in prog.all_funcs():
+        if f.module.generated:
+            continue
+        for n in own_nodes(f.node):
+            if isinstance(n, ast.Subscript) and isinstance(n.value, ast.Call) and isinstance(n.value.func, ast.Attribute) \
+                    and n.value.func.attr in ('split', 'partition') and n.value.args \
+                    and isinstance(n.value.args[0], ast.Constant) and n.value.args[0].value == ':' \
+                    and 'full_name' in stmt_text(n.value.func.value) \
+                    and isinstance(n.slice, ast.Constant) and n.slice.value == 0 \
+                    and not (n.value.func.attr == 'split' and len(n.value.args) > 1):
+                out.append((f, n, 'NAMESPLIT',
+                            f"'{stmt_text(n, 60)}' takes the asset part of a full name up to the FIRST colon, but asset "
+                            f"names contain colons (a duplicate name becomes 'name:id', an unnamed asset 'Type:id'): "
+                            f"such assets are reported under a truncated name - another asset's (use rpartition(':'))"))
+    # GROUPBYDICT: itertools.groupby starts a new group whenever the key CHANGES; collected into a dict keyed by the
+    # group key, a later run of the same key replaces the earlier one unless the input was sorted by that key
+    for f in prog.all_funcs():
+        if f.module.generated:
+            continue
+        for n in own_nodes(f.node):
+            gb = None
+            if isinstance(n, ast.DictComp) and len(n.generators) == 1:
+                it = n.generators[0].iter
+                if isinstance(it, ast.Call) and stmt_text(it.func).split('.')[-1] == 'groupby' and it.args:
+                    tg = n.generators[0].target
+                    if isinstance(tg, ast.Tuple) and tg.elts and isinstance(tg.elts[0], ast.Name) \
+                            and isinstance(n.key, ast.Name) and n.key.id == tg.elts[0].id:
+                        gb = it
+            elif isinstance(n, ast.Call) and isinstance(n.func, ast.Name) and n.func.id == 'dict' and len(n.args) == 1 \
+                    and isinstance(n.args[0], ast.Call) and stmt_text(n.args[0].func).split('.')[-1] == 'groupby' and n.args[0].args:
+                gb = n.args[0]
+            if gb is None:
+                continue
+            src = gb.args[0]
+            if isinstance(src, ast.Name):
+                # single definition of the local?
+                defs = [a.value for a in own_nodes(f.node) if isinstance(a, ast.Assign) and len(a.targets) == 1
+                        and isinstance(a.targets[0], ast.Name) and a.targets[0].id == src.id]
+                if len(defs) == 1:
+                    src = defs[0]
+            is_sorted = isinstance(src, ast.Call) and isinstance(src.func, ast.Name) and src.func.id == 'sorted'
+            if not is_sorted:
+                out.append((f, n, 'GROUPBYDICT',
+                            f"'{stmt_text(n, 70)}' keys a dict by the groupby key of an input that is not sorted by it: "
+                            f"groupby only groups ADJACENT items, so when items of one key are interleaved with others "
+                            f"the dict keeps the last run and the earlier ones are silently dropped"))
     # STRIPSET: str.strip / lstrip / rstrip take a SET of characters, not a prefix / suffix: `s.rstrip('.attacker')`
     # goes on removing any of . a t c k e r from the end ('write.attacker' -> 'wri')
     for f in prog.all_funcs():
@@ -834,7 +968,9 @@ def run(ctx) -> list[Inst]:
             RULE, f.short, f'MUTDEFAULT: {stmt_text(n, 60)}', 'violation',
             msg=(f"parameter '{p}' has a mutable default and '{stmt_text(n, 80)}' changes it in place: the default "
                  f"object is shared by every call that omits the argument, data of one call leaks into the next"),
-            file=rel, line=n.lineno, props=tuple(dict.fromkeys(tuple(props_for(f.short, rel)) + ('C16',)))))
+            file=rel, line=n.lineno,
+            # a shared default carries state from one graph into another: also between a deep copy and its original
+            props=tuple(dict.fromkeys(tuple(props_for(f.short, rel)) + ('C16',) + (('C14',) if '/attackgraph/' in rel else ())))))
     for (f, it, name, how) in bad_g:
         rel = f.module.relpath
         flagged.add(f.qname)
